@@ -36,7 +36,9 @@ def _wrap_agent(modname, label):
         from harness.common import Failure, seed
         from harness import coqbuild
         mod = importlib.import_module(modname)
-        fails, stats = mod.run(tier, seed=seed(), coq_dir=coqbuild.COQ)
+        import inspect
+        kw = dict(verbose=False) if 'verbose' in inspect.signature(mod.run).parameters else {}
+        fails, stats = mod.run(tier, seed=seed(), coq_dir=coqbuild.COQ, **kw)
         out = []
         for d in fails[:3]:
             kind = "input" if "oracle" in str(d.get("kind", "")) else "correspondence"
@@ -47,3 +49,4 @@ def _wrap_agent(modname, label):
 
 
 CORR["bfgs"] = _wrap_agent("harness.corr.bfgs", "BFGS matrix model vs update_lbfgs_matrices")
+CORR["cauchy"] = _wrap_agent("harness.corr.cauchy", "Cauchy-point model vs get_cauchy_point")
